@@ -355,8 +355,8 @@ Definition single_group_free (lv : live) : option route :=
   end.
 
 Definition check_search (x : rst) (path : bytes) (r : sres) : list finding :=
-  let m := sres_of (search cfun (rs_dump x) path) in
-  let wres := W cfun (live_routes (rs_live x)) path in
+  let m := sres_of (search (cfun_of (rs_cons x)) (rs_dump x) path) in
+  let wres := W (cfun_of (rs_cons x)) (live_routes (rs_live x)) path in
   let wr := sres_of wres in
   fl (sres_eqb m r) FOpsSearch [path]
   ++ (if sres_eqb wr r then [] else
@@ -365,20 +365,20 @@ Definition check_search (x : rst) (path : bytes) (r : sres) : list finding :=
         if existsb (fun ri : route * info =>
              beqb (i_template (snd ri)) t && obeqb (i_expanded (snd ri)) e && N.eqb (i_data (snd ri)) d
              && list_beqb (param_names (fst ri)) (map fst ps)
-             && fits_with cfun (fst ri) path (map snd ps)) (live_routes (rs_live x))
+             && fits_with (cfun_of (rs_cons x)) (fst ri) path (map snd ps)) (live_routes (rs_live x))
         then [(FWalkPriority, [path])] else [(FWalkGenuine, [path])]
-      | None => if any_fits_b cfun (live_routes (rs_live x)) path then [(FWalkMissed, [path])]
+      | None => if any_fits_b (cfun_of (rs_cons x)) (live_routes (rs_live x)) path then [(FWalkMissed, [path])]
                 else [(FWalkPriority, [path])]
       end)
   ++ (match single_group_free (rs_live x), r with
-      | Some route, Some (_, _, _, ps) => fl (leftmost_longest_b cfun route path (map snd ps)) FGreedy [path]
+      | Some route, Some (_, _, _, ps) => fl (leftmost_longest_b (cfun_of (rs_cons x)) route path (map snd ps)) FGreedy [path]
       | _, _ => []
       end)
   ++ (match rs_before x with
       | Some (ins, t, olds) =>
         match List.find (fun pr : bytes * sres => beqb (fst pr) path) olds with
         | Some (_, old) =>
-          if tfits_b cfun t path
+          if tfits_b (cfun_of (rs_cons x)) t path
           then (if ins then fl (match r with Some _ => true | None => false end) FNotRouted [t; path] else [])
           else fl (sres_eqb old r) FInterfere [t; path]
         | None => []
@@ -577,7 +577,7 @@ Definition line_stats (s : state) (line : bytes) : option (N * N * N) :=
   | Some (EvSearch rid p (SRes r)) =>
     match get_r s rid with
     | Some x =>
-      Some (N.of_nat (length (filter (fun ri : route * info => fits_b cfun (fst ri) p) (live_routes (rs_live x)))),
+      Some (N.of_nat (length (filter (fun ri : route * info => fits_b (cfun_of (rs_cons x)) (fst ri) p) (live_routes (rs_live x)))),
             match r with Some (_, _, _, ps) => N.of_nat (length ps) | None => 0%N end,
             N.of_nat (length (rs_live x)))
     | None => None
